@@ -3,7 +3,7 @@
 ID = "C13"
 HARNESS_TEST = "TestC13"
 COQ_MODEL = ["C13/Check.v"]
-COQ_PROOF_DEPS = ["C13/Proofs.v"]
+COQ_PROOF_DEPS = ["C13/Arith.v", "C13/Proofs.v"]
 COQ_OBLIG = ["C13/Property.v"]
 CASES_HEADER = "Require Import Nib.C13.Model Nib.C13.Spec Nib.C13.Check."
 CASE_TYPE = "case"
